@@ -47,6 +47,12 @@ pub struct LinProgram {
     pub threads: Vec<Vec<(u8, OpSpec)>>,
     pub flusher: bool,
     pub schedule: Schedule,
+    /// the thread programs are repeated this many times on fresh keys (one history per round and
+    /// key) with all threads released together by a spin barrier and a generated per-round skew
+    #[serde(default)]
+    pub rounds: u16,
+    #[serde(default)]
+    pub skew_seed: u64,
 }
 
 fn opspec() -> BoxedStrategy<OpSpec> {
@@ -71,13 +77,27 @@ pub fn lin_program_strategy() -> BoxedStrategy<LinProgram> {
         proptest::collection::vec(proptest::collection::vec((any::<u8>(), opspec()), 2..7), 2..5),
         any::<bool>(),
         sched::schedule_strategy(),
+        prop_oneof![2 => Just(1u16), 3 => 20u16..200],
+        any::<u64>(),
     )
-        .prop_map(|(persistent, cache, plain_io, keys, threads, flusher, schedule)| LinProgram { persistent, cache: persistent && cache, plain_io, keys, threads, flusher: persistent && flusher, schedule })
+        .prop_map(|(persistent, cache, plain_io, keys, threads, flusher, schedule, rounds, skew_seed)| {
+            // delays and parks multiply with the rounds: keep steered schedules short
+            let rounds = if matches!(schedule, Schedule::Free) { rounds } else { rounds.min(24) };
+            LinProgram { persistent, cache: persistent && cache, plain_io, keys, threads, flusher: persistent && flusher, schedule, rounds, skew_seed }
+        })
         .boxed()
 }
 
 fn key_name(i: usize) -> Vec<u8> {
     format!("lk{i}").into_bytes()
+}
+
+fn round_key(i: usize, round: usize) -> Vec<u8> {
+    if round == 0 {
+        key_name(i)
+    } else {
+        format!("lk{i}r{round}").into_bytes()
+    }
 }
 
 /// value id -> bytes: counters for plain keys (8 bytes so increments apply), JSON documents for json keys
@@ -172,6 +192,7 @@ pub fn run_lin_program(p: &LinProgram) -> LinOutcome {
     sched::install(Some(ctl.clone()));
     let stamp = Arc::new(AtomicU64::new(1));
     let nthreads = p.threads.len();
+    let gate = Arc::new(AtomicU64::new(0));
     let barrier = Arc::new(Barrier::new(nthreads + p.flusher as usize));
     let done = Arc::new(AtomicBool::new(false));
     let mut handles = Vec::new();
@@ -179,18 +200,37 @@ pub fn run_lin_program(p: &LinProgram) -> LinOutcome {
         let (store, stamp, barrier) = (store.clone(), stamp.clone(), barrier.clone());
         let keys = p.keys.clone();
         let ops = ops.clone();
+        let gate = gate.clone();
+        let rounds = p.rounds.max(1) as usize;
+        let skew_seed = p.skew_seed;
         handles.push(std::thread::spawn(move || {
-            let mut out: Vec<(usize, HOp)> = Vec::new();
+            let mut out: Vec<(usize, usize, HOp)> = Vec::new();
             barrier.wait();
-            for (kx, spec) in &ops {
-                let ki = (*kx as usize * keys.len()) >> 8;
-                let op = resolve(spec, &keys[ki]);
-                let key = key_name(ki);
-                let _g = env::watch("concurrent call");
-                let inv = stamp.fetch_add(1, Ordering::SeqCst);
-                let result = exec_kop(&store, &key, &op);
-                let res = stamp.fetch_add(1, Ordering::SeqCst);
-                out.push((ki, HOp { thread: t as u8, inv, res, op, result }));
+            let mut lcg = skew_seed ^ (t as u64 + 1).wrapping_mul(0x9E3779B97F4A7C15);
+            for round in 0..rounds {
+                if rounds > 1 {
+                    // spin barrier: release all threads of this round together, then skew them
+                    gate.fetch_add(1, Ordering::SeqCst);
+                    let target = (nthreads * (round + 1)) as u64;
+                    let _g = env::watch("round barrier");
+                    while gate.load(Ordering::SeqCst) < target {
+                        std::hint::spin_loop();
+                    }
+                    lcg = lcg.wrapping_mul(6364136223846793005).wrapping_add(1442695040888963407);
+                    for _ in 0..((lcg >> 33) % 300) {
+                        std::hint::spin_loop();
+                    }
+                }
+                for (kx, spec) in &ops {
+                    let ki = (*kx as usize * keys.len()) >> 8;
+                    let op = resolve(spec, &keys[ki]);
+                    let key = round_key(ki, round);
+                    let _g = env::watch("concurrent call");
+                    let inv = stamp.fetch_add(1, Ordering::SeqCst);
+                    let result = exec_kop(&store, &key, &op);
+                    let res = stamp.fetch_add(1, Ordering::SeqCst);
+                    out.push((round, ki, HOp { thread: t as u8, inv, res, op, result }));
+                }
             }
             out
         }));
@@ -206,11 +246,14 @@ pub fn run_lin_program(p: &LinProgram) -> LinOutcome {
             }
         })
     });
-    let mut histories: Vec<Vec<HOp>> = vec![Vec::new(); p.keys.len()];
+    let rounds = p.rounds.max(1) as usize;
+    let nk = p.keys.len();
+    // one history per (round, key): index round * nk + key
+    let mut histories: Vec<Vec<HOp>> = vec![Vec::new(); nk * rounds];
     for h in handles {
         if let Ok(list) = h.join() {
-            for (ki, op) in list {
-                histories[ki].push(op);
+            for (round, ki, op) in list {
+                histories[round * nk + ki].push(op);
             }
         }
     }
@@ -220,8 +263,8 @@ pub fn run_lin_program(p: &LinProgram) -> LinOutcome {
     }
     sched::install(None);
     // final reads (sequential, after everything)
-    for (ki, h) in histories.iter_mut().enumerate() {
-        let key = key_name(ki);
+    for (hi, h) in histories.iter_mut().enumerate() {
+        let key = round_key(hi % nk, hi / nk);
         let mut result = KRes::Err(crate::model::ErrKind::StaleExtent);
         for _ in 0..5 {
             let inv = stamp.fetch_add(1, Ordering::SeqCst);
@@ -238,7 +281,8 @@ pub fn run_lin_program(p: &LinProgram) -> LinOutcome {
     let mut failure = None;
     let mut overlapping = Vec::new();
     let mut explored = 0;
-    for (ki, h) in histories.iter().enumerate() {
+    for (hi, h) in histories.iter().enumerate() {
+        let ki = hi % nk;
         if h.len() > 60 {
             continue;
         }
@@ -248,7 +292,7 @@ pub fn run_lin_program(p: &LinProgram) -> LinOutcome {
         if !r.ok && failure.is_none() {
             failure = Some(format!(
                 "key {} ({} timestamps{}): no sequential last-writer-wins execution explains the history: {}",
-                String::from_utf8_lossy(&key_name(ki)),
+                String::from_utf8_lossy(&round_key(ki, hi / nk)),
                 if p.keys[ki].explicit { "explicit" } else { "automatic" },
                 if p.persistent { ", persistent" } else { "" },
                 h.iter().map(|o| format!("[t{} {}-{} {:?} -> {:?}]", o.thread, o.inv, o.res, o.op, o.result)).collect::<Vec<_>>().join(" ")
